@@ -7,6 +7,7 @@ let world : world option ref = ref None
 let sworld : sworld ref = ref sworld0
 let impl_res : string ref = ref ""
 let lineno : int ref = ref 0
+let merge_ctr : int ref = ref 0
 (* transactions whose spec/impl comparison is suspended: see DESIGN (known findings) *)
 let disk : disk ref = ref []
 let now : n ref = ref N0
@@ -123,6 +124,16 @@ let run_cmd (cmd : string) (a : string list) : string =
     world := Some w; disk := w.w_disk; "ok"
   | "close", [] -> do_step CClose
   | "begin", [w; id] -> do_step (CBegin (w = "w", n_of_tok id))
+  | "merge", [] ->
+    (* the specification: Merge changes nothing observable; it fails when fewer than two data files exist *)
+    (match !world with
+     | None -> "err"
+     | Some w ->
+       merge_ctr := !merge_ctr + 1;
+       let base = n_of_z (ZA.add (ZA.shift_left ZA.one 63) (ZA.of_int (!merge_ctr * 100000))) in
+       let (w', ok) = do_merge !now w base in
+       world := Some w'; disk := w'.w_disk;
+       if ok then "ok" else "err")
   | "commit", [] -> do_step CCommit
   | "commitfault", [k; _kind] ->
     (* Commit with an I/O error after k complete record writes *)
